@@ -457,7 +457,7 @@ func (r *vfC16Run) stepFailedConnect() {
 // stepWriteFailure: the broker's writes to the live connection start failing (peer vanished).
 // variant "publish": a matching message makes the writer notice; it runs the end-of-connection
 // cleanup while the reader still blocks, so the connection object stays registered.
-// variant "ping": the client's own PINGREQ makes the writer notice; the reader ends right after.
+// variant "ping": the PINGRESP to the client's own PINGREQ makes the writer notice.
 func (r *vfC16Run) stepWriteFailure() {
 	fc := r.faults[r.live]
 	variant := "ping"
@@ -484,9 +484,6 @@ func (r *vfC16Run) stepWriteFailure() {
 			r.liveFailed("write-failure", err)
 			return
 		}
-		if !c.WaitEOF(vfMqWait) {
-			r.inconclusive("write failure", fmt.Errorf("broker did not close %s after its write failed", c.Label))
-		}
 	} else {
 		r.probeSeq++
 		if code := r.rig.Publish(topic, 0, fmt.Sprintf("lost%d", r.probeSeq)); code != 200 {
@@ -495,16 +492,18 @@ func (r *vfC16Run) stepWriteFailure() {
 		if err := r.rig.FanoutBarrier(); err != nil {
 			r.inconclusive("fan-out barrier", err)
 		}
-		deadline := time.Now().Add(vfMqWait)
-		for bc != nil && !bc.disconnected() {
-			if time.Now().After(deadline) {
-				r.inconclusive("write failure", fmt.Errorf("broker did not give up %s after its write failed", c.Label))
-			}
-			time.Sleep(200 * time.Microsecond)
-		}
-		// the reader of that connection still blocks: its end comes later, like a superseded one's
-		r.olds = append(r.olds, &vfC16Old{c: c, topics: map[string]byte{}})
 	}
+	deadline := time.Now().Add(vfMqWait)
+	for bc != nil && !bc.disconnected() {
+		if time.Now().After(deadline) {
+			r.inconclusive("write failure", fmt.Errorf("broker did not give up %s after its write failed", c.Label))
+		}
+		time.Sleep(200 * time.Microsecond)
+	}
+	// the reader of that connection normally still blocks (it went back to ReadPacket before the
+	// writer failed): its end comes later, like a superseded connection's; sweep() notices if it
+	// has ended already
+	r.olds = append(r.olds, &vfC16Old{c: c, topics: map[string]byte{}})
 	if err := r.rig.Quiesce(); err != nil {
 		r.inconclusive("quiesce", err)
 	}
@@ -814,7 +813,11 @@ func TestVerifC16Sessions(t *testing.T) {
 				if rapid.IntRange(0, 5).Draw(rt, "failedAttempt?") == 0 {
 					r.stepFailedConnect()
 				} else {
-					r.connect(rapid.IntRange(0, 9).Draw(rt, "clean") < 4, false)
+					cleanBelow := 4
+					if r.deadRegistered {
+						cleanBelow = 2 // the interesting follow-up of a dead registered connection is a restoring reconnect
+					}
+					r.connect(rapid.IntRange(0, 9).Draw(rt, "clean") < cleanBelow, false)
 				}
 			} else {
 				ops := []string{"sub", "sub", "sub", "unsub", "unsub", "pipelined", "end", "end"}
